@@ -71,7 +71,7 @@ inline void put_limbs(Out &o, unsigned long long v) {
 // What is running right now; written into an Abnormal event if the process
 // dies (sanitizer report, abort, signal, watchdog) during the step.
 struct Cur {
-    char desc[8192];
+    char desc[65536];
     volatile long long index = -1;     // input / step index
     volatile unsigned long long ticks = 0;
 };
@@ -79,19 +79,31 @@ inline Cur &cur() { static Cur c; return c; }
 inline void set_cur(long long index, const std::string &desc) {
     Cur &c = cur();
     c.index = index;
-    size_t n = desc.size() < sizeof(c.desc) - 1 ? desc.size() : sizeof(c.desc) - 1;
-    memcpy(c.desc, desc.data(), n); c.desc[n] = 0;
+    if (desc.size() < sizeof(c.desc) - 1) { memcpy(c.desc, desc.data(), desc.size()); c.desc[desc.size()] = 0; }
+    else snprintf(c.desc, sizeof c.desc, "{\"i\":%lld,\"truncated\":1}", index);   // keep the Abnormal event valid JSON
     c.ticks++;
 }
 
 inline void emit_abnormal(const char *kind, const char *detail) {
-    // async-signal-unsafe calls are acceptable here: the process is dying.
+    // The process is dying, possibly inside malloc or stdio (sanitizer report, signal): no allocation and
+    // no stdio here - the pending complete lines and the event are written with write(2).
     Out &o = out();
-    o.flush();
-    Out t; t.f = o.f;
-    t.s("{").k("e").q("Abnormal").c(',').k("i").i(cur().index).c(',').k("kind").q(kind)
-     .c(',').k("detail").q(detail ? detail : "").c(',').k("during").s(cur().desc[0] ? cur().desc : "{}").s("}\n");
-    t.flush();
+    int fd = fileno(o.f);
+    size_t nl = o.b.rfind('\n');        // a step that dies while its line is being written leaves no fragment
+    size_t keep = nl == std::string::npos ? 0 : nl + 1;
+    for (size_t off = 0; off < keep; ) { ssize_t w = write(fd, o.b.data() + off, keep - off); if (w <= 0) break; off += (size_t)w; }
+    static char ev[sizeof(Cur::desc) + 1024];
+    char det[400]; size_t dn = 0;
+    for (const char *p = detail ? detail : ""; *p && dn < sizeof det - 8; ++p) {
+        unsigned char ch = (unsigned char)*p;
+        if (ch == '"' || ch == '\\') { det[dn++] = '\\'; det[dn++] = (char)ch; }
+        else if (ch < 0x20 || ch >= 0x7f) det[dn++] = '?';
+        else det[dn++] = (char)ch;
+    }
+    det[dn] = 0;
+    int n = snprintf(ev, sizeof ev, "{\"e\":\"Abnormal\",\"i\":%lld,\"kind\":\"%s\",\"detail\":\"%s\",\"during\":%s}\n",
+                     (long long)cur().index, kind, det, cur().desc[0] ? cur().desc : "{}");
+    if (n > 0) { ssize_t w = write(fd, ev, (size_t)n); (void)w; }
 }
 
 extern "C" void __sanitizer_set_death_callback(void (*)(void)) __attribute__((weak));
@@ -125,6 +137,12 @@ inline void on_tick(int) {
     if (cur().ticks == seen) { if (++same >= wd_limit()) on_signal(SIGALRM); }
     else { seen = cur().ticks; same = 0; }
 }
+// wall-clock twin: a step blocked without using CPU (e.g. a lock taken by a dying allocator) is a hang too
+inline void on_tick_real(int) {
+    static unsigned long long seen = ~0ull; static int same = 0;
+    if (cur().ticks == seen) { if (++same >= 4 * wd_limit() + 20) on_signal(SIGALRM); }
+    else { seen = cur().ticks; same = 0; }
+}
 
 inline void install_handlers() {
     signal(SIGABRT, on_signal); signal(SIGSEGV, on_signal); signal(SIGBUS, on_signal);
@@ -135,6 +153,9 @@ inline void install_handlers() {
     sigaction(SIGVTALRM, &sa, nullptr);
     struct itimerval tv; tv.it_interval.tv_sec = 1; tv.it_interval.tv_usec = 0; tv.it_value = tv.it_interval;
     setitimer(ITIMER_VIRTUAL, &tv, nullptr);   // CPU time of this process
+    struct sigaction sr; memset(&sr, 0, sizeof sr); sr.sa_handler = on_tick_real;
+    sigaction(SIGALRM, &sr, nullptr);
+    setitimer(ITIMER_REAL, &tv, nullptr);      // wall clock
 }
 
 // ------------------------------------------------------------- exceptions ---
